@@ -254,12 +254,16 @@ class DelAttrMethod(MethodDescriptor):
 
             attr_spec = self.__spec_class__.attrs.get(attr)
 
-            if (
-                force
-                or not attr_spec
-                or attr_spec.default is MISSING
-                or attr_spec.is_masked
-            ):
+            # The default a fresh instance of this class would get: evaluates
+            # default factories and honours overrides in (plain) subclasses;
+            # it is already safe to mutate.
+            default = (
+                MISSING
+                if force or not attr_spec
+                else attr_spec.lookup_default_value(self.__class__)
+            )
+
+            if default is MISSING:
                 self.__delattr__.__raw__(self, attr)
                 if not skip_invalidation:
                     invalidate_attrs(self, attr)
@@ -268,7 +272,7 @@ class DelAttrMethod(MethodDescriptor):
             return mutate_attr(
                 obj=self,
                 attr=attr,
-                value=protect_via_deepcopy(attr_spec.default),  # handle default factory
+                value=default,
                 inplace=True,
                 force=True,
                 skip_invalidation=skip_invalidation,
